@@ -417,7 +417,7 @@ GENERATORS = {'C16': gen_c16, 'C07': gen_c07, 'C14': gen_c14, 'C17': gen_c17, 'C
 from extract_m import GENERATORS_M  # noqa: E402  pylint: disable=wrong-import-position
 GENERATORS.update(GENERATORS_M)
 USES_PRELUDE = set(GENERATORS_M)
-EXTRA_IMPORTS = {'C12': ('PysparklingVerif.Model.Sql',), 'C01': ('PysparklingVerif.Model.Rdd',), 'C19': ('PysparklingVerif.Model.Types',)}      # the value universe `SV` and Python truthiness come from the model
+EXTRA_IMPORTS = {'C12': ('PysparklingVerif.Model.Sql',), 'C01': ('PysparklingVerif.Model.Rdd',), 'C19': ('PysparklingVerif.Model.Types',), 'C06': ('PysparklingVerif.Model.Lazy',)}      # the value universe `SV` and Python truthiness come from the model
 
 
 def generate(prop, repo):
